@@ -1,4 +1,5 @@
 import Driver.Util
+import Typegen.BuildPath
 import Typegen.Run
 /-! op `history` (C08, C14, C17): the run model instantiated on *aspect vectors*.
 
@@ -85,12 +86,8 @@ def opHistory (inp imp : Json) : Except String Json := do
       -- build-script path: OutputManager::finalize_generation removes reserved-named files that are not in
       -- the list returned by generate_bindings ([] when no commands were found; everything present on a cache hit)
       if build && r.1 == .ok then
-        let list : List String := match r.2.1 with
-          | .noCommands => []
-          | .upToDate => fileNames.filter fun n => (w.out.files n).isSome
-          | _ => (S.gen w.src w.cfg).map (·.1)
-        let victims := reservedHere.filter fun n => !(n ∈ list) && (w.out.files n).isSome
-        w := { w with out := victims.foldl (fun o n => applyOp o (.remove n)) w.out }
+        -- (the model of the clean-up lives in Typegen/BuildPath.lean; the directory listing is `fileNames`)
+        w := { w with out := R.finalize (fun n => reservedHere.contains n) fileNames (R.keptOf S w.src w.cfg r.2.1 fileNames w.out) w.out }
       -- a stale reserved-named file that cannot be removed makes finalize_generation fail (build path only; the CLI
       -- does not clean up): the run is reported as failed and its record is dropped again (fix 2a70fe0)
       let finalizeFails := build && r.1 == .ok && r.2.1 != .noCommands && (getS st "leftover").toOption.isSome
